@@ -7,7 +7,7 @@ from props._common import SPEC
 
 # property -> (claimed?, technique, level_note)
 TECH = {
- "C01": "bounded contract check of the real sum_product against an independent evaluation of the definition (stand-in; not proved)",
+ "C01": "contract-based VCs (pyvc/z3) for the solver dispatch of sum_products, rename_duplicate_nodes and the scheduling partition computed by scc (nested function verified against its own contract) + bounded contract check of the real sum_product against an independent evaluation of the definition (stand-in; not proved)",
  "C02": "contract-based VCs from the real AST (pyvc/z3) for fixed_point/newton control flow + scalar semiring proofs (semvc/z3 NRA) + bounded stand-in for values",
  "C03": "bounded contract check of gradients against exact derivatives / central differences (stand-in; not proved)",
  "C04": "scalar proof that ViterbiSemiring.star is the least solution (semvc/z3) + bounded contract check of viterbi against brute force (stand-in; not proved)",
@@ -16,16 +16,16 @@ TECH = {
  "C07": "scalar-semantics proof obligations for the einsum callbacks (semvc/z3) + bounded stand-in against nested-loop einsum",
  "C08": "semiring laws as proof obligations over the real method bodies, extended reals in z3 nonlinear arithmetic (semvc) + bounded stand-in for the representation clause",
  "C09": "ownership analysis obligations on the real ASTs (arguments unmodified) + bounded stand-in against dense Kleene iteration",
- "C10": "contract-based VCs (pyvc/z3) with loop invariants for the graph helpers, eliminate_node, min_fill, dispatch + exhaustive bounded stand-in for validity/optimality",
+ "C10": "contract-based VCs (pyvc/z3) with loop invariants for the graph helpers, eliminate_node, min_fill, dispatch and tree_decomposition_from_order (vertex and edge cover; nested recursive function under its own contract) + exhaustive bounded stand-in for running intersection / tree shape / optimality / acb",
  "C11": "assertion-purity obligations by static analysis of the real ASTs + scalar homomorphism proofs (semvc/z3) + bounded relational stand-in",
  "C12": "static obligations: no ordering of ids/labels in solver modules + commutativity/associativity proofs (semvc/z3) + bounded relational stand-in",
  "C13": "bounded contract check of equal/allclose against torch on dense tensors (stand-in; not proved)",
  "C14": "contract-based VCs (pyvc/z3) with program-point assertions for json_to_hrg node numbers + bounded stand-in for round trips",
  "C15": "contract-based VCs (pyvc/z3) for the Graph/Node/Edge operations replace_edge is built from + bounded stand-in for replacement and all linearisations",
  "C16": "contract-based deductive verification (pyvc: AST -> VCs with loop invariants -> z3/cvc5) of every Graph / label-table / interpretation operation + bounded exploration of call histories",
- "C17": "contract-based VCs (pyvc/z3) for fresh paired names + bounded stand-in for rule structure and derivation bijection",
+ "C17": "contract-based VCs (pyvc/z3) for fresh paired names, conjoinable (exact characterisation) and conjoin_rules (no exception, nodes/externals/lhs, explicit-id nonterminal edges, frame) + bounded stand-in for implicit ids, terminal edges and the derivation bijection",
  "C18": "ownership / frame obligations by static analysis of every in-place site of the real ASTs + pyvc frame contracts + bounded snapshot stand-in",
- "C19": "bounded contract check, exhaustive over all digraphs up to 4 vertices and all insertion orders (stand-in; not proved)",
+ "C19": "contract-based VCs (pyvc/z3): nonterminal_graph (exact edge set) and Tarjan's scc with its nested recursive visit under contract (result is a partition of the vertices, no KeyError/IndexError) + bounded stand-in, exhaustive over all digraphs up to 4 vertices and all insertion orders, for exactness and dependency order",
  "C20": "contract-based deductive verification (pyvc/z3) of domains.py and of add_domain/add_factor/shape + bounded stand-in for FiniteFactor",
 }
 NOTE = ("Trusted: the VC generator / scalar interpreter / ownership analysis of /verif (validated by seeded mutants and canaries, not verified), "
@@ -62,7 +62,7 @@ def main(claimed):
                   "baseline_off_cmd": "cd /repo && /venv/bin/python -m pytest -ra -q -p no:cacheprovider --timeout=900 --continue-on-collection-errors",
                   "source_commits": hook_commits, "add_only": True},
         "engines": [
-            {"name": "pyvc", "path": "vf/pyvc", "serves_properties": ["C02", "C05", "C10", "C14", "C15", "C16", "C17", "C18", "C20"],
+            {"name": "pyvc", "path": "vf/pyvc", "serves_properties": ["C01", "C02", "C03", "C05", "C10", "C14", "C15", "C16", "C17", "C18", "C19", "C20"],
              "kind_free_text": "VC generator: symbolic execution of the real ASTs of /repo/fggs against sidecar contracts (contracts/*.py), loops by invariant, discharge with z3 (rlimit) then cvc5"},
             {"name": "semvc", "path": "vf/semvc", "serves_properties": ["C02", "C06", "C07", "C08", "C11", "C12"],
              "kind_free_text": "scalar semantics of elementwise tensor code over extended reals (IEEE special values) in z3 nonlinear arithmetic"},
